@@ -9,6 +9,8 @@ UNITS = {
     "setup": dict(engine="verus", serves=["C17"]),
     "panics": dict(engine="verus", serves=["C13"]),
     "panic_bytes": dict(engine="kani", serves=["C13", "C14"], path="kani/panic_bytes", kind="Kani harnesses over verbatim byte-level slices (bounded UTF-16 frame; full-domain byte map)"),
+    "conn":   dict(engine="verus", serves=["C07"]),
+    "actors": dict(engine="verus", serves=["C09", "C10", "C11"]),
     "authorizer": dict(engine="verus", serves=["C03", "C11", "C01"]),
 }
 
@@ -57,9 +59,9 @@ PROPERTIES["C02"] = dict(
 
 PROPERTIES["C01"] = dict(
     units=["handler", "authorizer"],
-    technique="Verus contracts on the extracted real functions (capability precondition on the upstream write primitive)",
-    level_text="Deductive proof (Verus/Z3), all requests/configurations.",
-    level_note="see evidence trusted_base",
+    technique='Verus contracts on the extracted real functions: capability precondition (may_relay) on the single upstream write primitive; refusal-status postcondition of the request handler',
+    level_text="Deductive proof (Verus/Z3) for every request, caller, destination and rule set: TcpConnectionContext::send_request (the only upstream write primitive of the request path) carries the precondition may_relay = no '..' in the path, connection attributed (original destination and caller claims present), policy lookup for the ORIGINAL destination succeeded and the declared decision table does not forbid; handle_new_http_request, handle_request_with_signature, HttpConnectionContext::send_request, convert_request, forward_response, log_connection_summary, extracted verbatim, are proved to establish it at every call, and handle_new_http_request is proved to answer 404/421/500/403 with an empty body whenever may_relay is false. get_access_control_rules/authorize are proved against the same table in unit authorizer.",
+    level_note="Trusted: Verus/Z3/rustc; hyper calls the service once per parsed request and nothing else writes to the upstream socket; the accept-time connect made by TcpConnectionContext::new carries no payload; rules_reply (the key-keeper actor's answer) is uninterpreted so results hold for every policy; E9 stubs (StatusCode constants, body collection, derived Clone of claims/contexts, hyper body plumbing); is_allowed's contract is decided in unit authz, attribution in unit conn. A request to /provision is served locally. Not covered: hyper's own parsing; OS-thread races.",
     design_ref="DESIGN.md section 3 C01",
     assumptions=[],
 )
@@ -82,10 +84,10 @@ PROPERTIES["C19"] = dict(
 )
 
 PROPERTIES["C11"] = dict(
-    units=["handler", "authorizer", "authz"],
-    technique="Verus contracts on the extracted real functions (mode table refinement; ghost trace of summary events)",
-    level_text="Deductive proof (Verus/Z3).",
-    level_note="see evidence trusted_base",
+    units=["handler", "authorizer", "authz", "actors"],
+    technique='Verus contracts on the extracted real functions: decision-table refinement (authorizer), ghost trace of authorization decisions and failed-summary events (handler), actor arm + wrapper bodies with channel specs (actors)',
+    level_text="Deductive proof (Verus/Z3): authorize returns Forbidden in enforce mode, OkWithAudit in audit mode for a denied request and never consults the rules in disabled mode (is_allowed returns before any match); handle_new_http_request takes at most one decision per request, equal to the declared one, answers 403 with nothing relayed iff it is Forbidden, relays an audited denial through the same precondition as an allowed request, and hands exactly one event, carrying the caller's user, command line, executable, client and destination, to add_one_failed_connection_summary iff the decision is a denial; that wrapper never drops a message while the status actor lives (send().await; a try_send variant fails the contract); the actor arm adds one to the count filed under summary.to_key_string() and leaves every other entry unchanged; history lemma: n identical denials give count n.",
+    level_note='Trusted: Verus/Z3/rustc; tokio mpsc/oneshot specs (send waits for capacity and fails only if the receiver is gone); HashMap Entry API model; E6 format! assumption for the key string; u64 count does not overflow within the daily reset. Observation (proved lemma, not a failing clause): the space-separated summary key is not injective across field boundaries. Not covered: the actor dispatch loop itself, serialisation of the summary into status.json.',
     design_ref="DESIGN.md section 3 C11",
     assumptions=[],
 )
@@ -163,10 +165,19 @@ PROPERTIES["C15"] = dict(
 
 PROPERTIES["C13"] = dict(
     units=["panics", "panic_bytes", "handler", "provision", "telemetry", "disk"],
-    technique="Verus' own safety obligations (slice/char boundary, index, arithmetic overflow, unwrap preconditions) on the functions under contract",
-    level_text="Deductive proof (Verus/Z3) for the functions under contract.",
-    level_note="see evidence",
+    technique="Verus' own safety obligations (str/String slicing on a char boundary, String::truncate, index, arithmetic overflow, unwrap/stub preconditions) on every function under contract; Kani for the byte-level UTF-16 slice",
+    level_text='For the functions under contract (listed in the evidence; not the whole program): Verus discharges for all inputs that no slice/truncate is off a char boundary (event_logger::write_event, AgentStatusSharedState::get_module_status, ProxyServer::log_connection_summary after the fixes), no arithmetic overflow, no out-of-range index and no failing stub precondition in the request handler, provisioning, telemetry and logging units; Kani checks the UTF-16 frame conversion of read_response_body for every frame of up to 5 bytes (bounded companion, not counted as proved).',
+    level_note="Partial claim: only the functions under contract; panics inside dependencies, the accept loop, main and Windows code are not covered. UTF-8 byte model of String (utf8_len/char_boundary, linked to vstd's by trusted axioms). 'Display does not panic' axioms per displayed type. Known C13-labelled preconditions in other units (headers_to_canonicalized_string value is visible ASCII; key keeper sleep arithmetic) are reported by those units.",
     design_ref="DESIGN.md section 3 C13",
+    assumptions=[],
+)
+
+PROPERTIES["C07"] = dict(
+    units=["conn"],
+    technique="Verus contracts on the extracted real functions over a ghost kernel audit map (E4 Tracked<&mut Kernel> threaded through lookup/remove down to the aya call sites); whole-map postconditions; history lemmas over arbitrary interleavings of accepts and kernel writes; E5c slices of the accept/service_fn/per-request closures",
+    level_text="Deductive proof (Verus/Z3) for all histories under the await-interleaving model: TcpConnectionContext::new/get_audit_entry, redirector::lookup_audit/remove_audit, BpfObject::lookup_audit/remove_audit_map_entry (verbatim; both proved to build the key [IPPROTO_TCP, port] and to decode the value), the AuditEntry decoders and Claims::from_audit_entry are proved to: return exactly the record of this connection's source port, consume it (final map == old.remove(port), every other port untouched), leave the map unchanged on failure, and produce claims/destination only from THAT record (the upstream connection is opened to the decoded destination). Lemmas: a later accept on the same port with no kernel write in between is unattributed, for every interleaving with accepts/writes on other ports; accepts on distinct ports commute. The context handed to each request is proved (three slices) to carry the attribution of the context built at accept time for this connection's peer address.",
+    level_note="Trusted: Verus/Z3/rustc; crate aya is not linked (signature stand-in contracts/conn/aya_standin.rs; map()/try_from/get/remove behaviour assumed at 6 E9 sites: get Ok iff key present, remove Ok iff present and removes exactly that key); get_bpf_object stub (BPF object not cleared between lookup and remove of one accept; Mutex not poisoned); derived Clone of TcpConnectionContext copies all fields but the log queue; lexical capture by `move` closures + syntactic census (single caller of handle_new_http_request) link the slices; hyper delivers each request to its connection's service; the E9 range building the upstream sender (only its destination precondition is proved). Refusal with 421 of an unattributed connection is C01's contract (unit handler, refusal_status). Concurrent accepts are covered by the frame (each touches only its own port); OS-thread races inside tokio/hyper are not.",
+    design_ref="DESIGN.md section 3 C07",
     assumptions=[],
 )
 
